@@ -1521,8 +1521,10 @@ func (n *RegexNode) reduceConcatenationWithAdjacentLoops() {
 					next++
 					continue
 				}
-			} else if (currentNode.T == NtOneloop || currentNode.T == NtOnelazy) && nextNode.T == NtMulti && currentNode.Ch == nextNode.Str[0] {
+			} else if (currentNode.T == NtOneloop || currentNode.T == NtOnelazy) && nextNode.T == NtMulti && currentNode.Ch == nextNode.Str[0] &&
+				currentNode.Options&RightToLeft == 0 {
 				// Coalescing a loop with a subsequent string
+				// (not for RightToLeft: the children are reversed there, so the loop is adjacent to the end of the string, not to Str[0])
 				// Determine how many of the multi's characters can be combined.
 				// We already checked for the first, so we know it's at least one.
 				matchingCharsInMulti := 1
